@@ -380,8 +380,12 @@ K('C14', 'condition-take-loop-stale-axes', [(F, "        slices = [evidence[a] i
                                                "        newdom = self.domain.marginalize(evidence.keys())\n        values = self.values\n        for a in evidence:\n            if a in self.domain:\n                values = values.take(evidence[a], axis=self.domain.axes([a])[0])")], 'axis-by-name')
 K('C14', 'factor-dot-positional', [(F, "    def datavector(self, flatten=True):\n        \"\"\" Materialize the data vector \"\"\"", "    def dot(self, other):\n        return np.dot(self.datavector(), other.datavector())\n\n    def datavector(self, flatten=True):\n        \"\"\" Materialize the data vector \"\"\"")], 'elementwise')
 K('C01', 'tree-forest-for-disjoint', [(JT, "            wgt = len(set(c1) & set(c2))\n            complete.add_edge(c1, c2, weight=-wgt)", "            wgt = len(set(c1) & set(c2))\n            if wgt > 0:\n                complete.add_edge(c1, c2, weight=-wgt)")], 'tree-connected')
-K('C10', 'rda-gbar-aliases-zeros', [(INF, "        gbar = CliqueVector({ cl : self.Factor.zeros(domain.project(cl)) for cl in cliques })\n        zeros = CliqueVector({ cl : self.Factor.zeros(domain.project(cl)) for cl in cliques })\n",
-                                         "        gbar = zeros = CliqueVector({ cl : self.Factor.zeros(domain.project(cl)) for cl in cliques })\n")], 'mask-not-scaled')
+_ALIAS = (INF, "        gbar = CliqueVector({ cl : self.Factor.zeros(domain.project(cl)) for cl in cliques })\n        zeros = CliqueVector({ cl : self.Factor.zeros(domain.project(cl)) for cl in cliques })\n",
+          "        gbar = zeros = CliqueVector({ cl : self.Factor.zeros(domain.project(cl)) for cl in cliques })\n")
+_NOSAN = (F, "            new_values = np.nan_to_num(other*self.values)", "            new_values = other*self.values")
+K('C10', 'rda-alias-and-unsanitised-mul', [_ALIAS, _NOSAN], 'mask-not-scaled')
+T('C10', 'rda-gbar-aliases-zeros-alone', [_ALIAS])
+T('C10', 'mul-unsanitised-alone', [_NOSAN])
 K('C15', 'size-numpy-prod', [(DOM, "            return reduce(lambda x,y: x*y, self.shape, 1)", "            return int(np.prod(self.shape))"), (DOM, "from functools import reduce", "from functools import reduce\nimport numpy as np")], 'exact-size')
 K('C15', 'datavector-bins-from-shape', [(DS, "        ans = np.histogramdd(self.df.values, bins, weights=self.weights)[0]", "        ans = np.histogramdd(self.df.values, self.domain.shape, weights=self.weights)[0]")], 'histogram')
 T('C01', 'bp-message-by-projection', [(GM, "            messages[(i,j)] = tau.logsumexp(sep)", "            messages[(i,j)] = tau.project(self.sep_axes[(i,j)], agg='logsumexp')")])
